@@ -478,9 +478,12 @@ impl Engine {
                                 std::process::exit(1);
                             } else {
                                 println!(
-                                    "INCONCLUSIVE property={} stage={} a case exceeded the {:?} deadline",
+                                    "INCONCLUSIVE property={} stage={} a case exceeded the {:?} deadline (CPU time)",
                                     this.id, stage_name, this.case_deadline
                                 );
+                                if let Some(st) = stash {
+                                    let _ = std::fs::write(Path::new(VERIF_ROOT).join("target").join(format!("slow-case-{}.json", this.id)), st);
+                                }
                                 std::process::exit(2);
                             }
                         }
@@ -595,7 +598,7 @@ impl Engine {
                 // another worker failed: finish quickly
                 return Ok(());
             }
-            let stash = if self.hang_is_violation {
+            let stash = if self.hang_is_violation || std::env::var_os("VERIF_STASH").is_some() {
                 serde_json::to_string(&v).ok()
             } else {
                 None
